@@ -42,6 +42,13 @@ Theorem C28_shape_levels : forall d dh : Z, 0 <= d -> 0 <= dh ->
   map fst (expected_shape d dh) = zrange 0 (dh + d + 1).
 Proof. exact expected_shape_levels. Qed.
 
+(* well-formedness of the model's dictionaries: every column produced by the model of
+   read_dict_list_csv has unique keys, and popping a key removes it altogether -- so the
+   association lists behave as the Python dicts they stand for *)
+Theorem C28_columns_are_dictionaries : forall rows : list (list cell),
+  Forall (fun d => NoDup (map fst d)) (read_dict_list rows).
+Proof. exact read_dict_list_unique. Qed.
+
 (* non-vacuity: a two-column file is accepted (custom matrix for depths (1,1); default name
    column_C; picture_bytes only for the lossy column), on tables satisfying both hypotheses;
    every rejection class used above is reachable; and without the table hypothesis the third
